@@ -3,7 +3,7 @@
 # next to other work.  usage: run_mutations_alt.sh <scratch dir> <file.tsv> <ids...>
 wt=$1; tsv=$2; shift 2
 [ -d $wt ] || git -C /repo worktree add -q --detach $wt HEAD
-git -C $wt checkout -q --detach $(git -C /repo rev-parse HEAD); git -C $wt checkout -q -- .
+git -C $wt reset -q --hard; git -C $wt checkout -q --detach $(git -C /repo rev-parse HEAD); git -C $wt reset -q --hard
 while IFS=$'\t' read -r name file pat rep; do
   [ -z "$name" ] && continue
   case "$name" in \#*) continue;; esac
